@@ -2,16 +2,16 @@
 (* B3 (and the second verdict of B2) for C10: selections made by the real auto-design, recorded call by call, are  *)
 (* judged against the clauses of AmpSelectionRule.  One trace = one selection (ndjson line), integers only:          *)
 (*   kind 0  single-band selection (select_edfa for an Edfa element):           every clause                        *)
-(*   kind 1  selection for one band of a multiband amplifier:                   CoversBand, RamanOnlyIfAllowed       *)
+(*   kind 1  selection for one band of a multiband amplifier:  CoversBand, RamanOnlyIfAllowed, MemberOfAdmittedGroup *)
 (*           (NF-minimality per band is not decided by the property once the group must fit all bands)              *)
-(*   kind 2  a completed multiband amplifier:                                   OneGroup, EveryMemberCoversItsBand   *)
+(*   kind 2  a completed multiband amplifier:       OneGroup, NamedGroupAdmitted, EveryMemberCoversItsBand          *)
 (*   c       context  [g, p, ext, hasOwn, hasRdm, bfmin, bfmax, prevFiber, lossCoef, ramanLimit]   (0/1 flags)       *)
 (*   lib     the whole single-band library, each model with its limits, band (MHz), list memberships as the          *)
 (*           harness reads them from the element / ROADM / library, and nf = the implementation's own edfa_nf at g    *)
 (*           (nfok = 0 when that model has no computable NF: it is then not used as a comparison)                    *)
 (*   chosen  id of the selected model (index in lib), refused = 1 when the design raised "no amplifier"              *)
 (*   jp      0 when two ROADM lists compete for the same amplifier (precedence between them is not in the property)   *)
-(*   groups / hasList / members   for kind 2                                                                        *)
+(*   groups / hasList / ptype (operator's multiband type or NONE) for kinds 1, 2; members / named (final type) for 2  *)
 EXTENDS AmpSelectionRule, Json, IOUtils, TLC
 
 T == ndJsonDeserialize(IOEnv.TRACE_FILE)
@@ -44,14 +44,22 @@ SelectionClauses(t) ==
                    /\ (n \in {"CapableIfPossible", "QuietestCapable"} => t.jp = 1)
                    /\ (n = "QuietestCapable" => (x.nfok /\ \A a \in cap : a.nfok))}
 
+Groups(t) == {[idx |-> t.groups[k].idx, alw |-> B(t.groups[k].alw), listed |-> B(t.groups[k].listed),
+               members |-> {t.groups[k].members[j] : j \in 1..Len(t.groups[k].members)}] : k \in 1..Len(t.groups)}
+
 GroupClauses(t) ==
-    LET groups == {[alw |-> B(t.groups[k].alw), listed |-> B(t.groups[k].listed),
-                    members |-> {t.groups[k].members[j] : j \in 1..Len(t.groups[k].members)}] : k \in 1..Len(t.groups)}
-        chosen == {t.members[k] : k \in 1..Len(t.members)}
-    IN (IF OneGroupAt(groups, B(t.hasList), chosen) THEN {} ELSE {"OneGroup"})
+    LET chosen == {t.members[k] : k \in 1..Len(t.members)}
+    IN (IF OneGroupAt(Groups(t), B(t.hasList), t.ptype, chosen) THEN {} ELSE {"OneGroup"})
+         \cup (IF NamedGroupAdmittedAt(Groups(t), B(t.hasList), t.ptype, t.named, chosen) THEN {} ELSE {"NamedGroupAdmitted"})
          \cup (IF EveryMemberCoversItsBandAt(chosen) THEN {} ELSE {"EveryMemberCoversItsBand"})
 
-Clauses(t) == IF t.kind = 2 THEN GroupClauses(t) ELSE SelectionClauses(t)
+\* one band of a multiband amplifier: the model must belong to an admitted group (besides band and Raman clauses)
+MemberClauses(t) ==
+    IF t.refused = 1 \/ MemberOfAdmittedGroupAt(Groups(t), B(t.hasList), t.ptype, t.chosen) THEN {}
+    ELSE {"MemberOfAdmittedGroup"}
+
+Clauses(t) == IF t.kind = 2 THEN GroupClauses(t)
+              ELSE IF t.kind = 1 THEN SelectionClauses(t) \cup MemberClauses(t) ELSE SelectionClauses(t)
 
 \* how the case relates to the undecided region (reported, never a violation)
 Open(t) == IF t.kind # 0 \/ t.refused = 1 THEN 0
